@@ -28,10 +28,32 @@ def main():
     try:
         mod.build(ctx)
         rc = ctx.finish()
-    except Exception:
+    except Exception as e:
         traceback.print_exc()
-        print(f"CHECKER-ERROR property={a.prop}")
         rc = 3
+        # an exception raised INSIDE the code under test (innermost frame in the library's own source) while a run-time obligation was calling it on an input of
+        # the property's domain is a failing input, not a checker crash; anything raised by the harness or the engine itself stays a checker error
+        try:
+            from pyvc import source
+            from pyvc.checkctx import REPLAY_DIR
+            frames = traceback.extract_tb(e.__traceback__)
+            inner = frames[-1] if frames else None
+            lib = os.path.join(source.SRC_ROOT, "chmpy") + os.sep
+            if inner is not None and os.path.abspath(inner.filename).startswith(lib):
+                caller = next((f for f in reversed(frames) if os.sep + "contracts" + os.sep in f.filename), None)
+                os.makedirs(REPLAY_DIR, exist_ok=True)
+                path = os.path.join(REPLAY_DIR, f"{a.prop}-{a.prop}_code_under_test_raised.json")
+                json.dump({"property_id": a.prop, "obligation": f"{a.prop}/code_under_test/no_exception_on_check_inputs", "tag": "B",
+                           "clause": "the functions under contract return on the inputs the check feeds them (inputs of the property's domain)",
+                           "verdict": "refuted", "verifier_output": traceback.format_exc()[-3000:],
+                           "raised": f"{type(e).__name__}: {e}"[:300], "raised_at": f"{inner.filename}:{inner.lineno} in {inner.name}",
+                           "called_from": (f"{caller.filename}:{caller.lineno} in {caller.name}" if caller else None), "reproduced": False, "seed": seed}, open(path, "w"), indent=1)
+                print(f"VIOLATION property={a.prop} replay={path} no-failing-input-found")
+                rc = 1
+        except Exception:  # noqa
+            traceback.print_exc()
+        if rc == 3:
+            print(f"CHECKER-ERROR property={a.prop}")
     sys.exit(rc)
 
 
